@@ -35,7 +35,8 @@ COMPONENTS = {"real": ["all model classes, SolverWrapper, HiGHS", "reference ser
 ASSUMPTIONS = ["objectives are compared with 1e-6 relative tolerance; routes themselves may differ (alternative optima)"]
 
 CLASSES_DAG = ["kFlowDecomp", "MinFlowDecomp", "kMinPathError", "kLeastAbsErrors", "kPathCover", "MinPathCover"]
-CLASSES_CYC = ["kFlowDecompCycles", "MinFlowDecompCycles", "kMinPathErrorCycles", "kLeastAbsErrorsCycles", "kPathCoverCycles", "MinPathCoverCycles"]
+CLASSES_CYC = ["kFlowDecompCycles", "MinFlowDecompCycles", "kMinPathErrorCycles", "kLeastAbsErrorsCycles", "kPathCoverCycles", "MinPathCoverCycles",
+               "MinFlowDecompCycles"]      # the search with the most internal models (guessed weights, generating set) counts twice
 
 
 def gen_world(seed, tier):
@@ -153,7 +154,7 @@ def gen_world(seed, tier):
         if cname not in models.COVER_CLASSES:
             args["weight_type"] = rng.choice(["int", "float"])
         r = rng.random()
-        if cname in ("MinFlowDecomp", "MinFlowDecompCycles", "kFlowDecomp") and rng.random() < 0.5:
+        if cname in ("MinFlowDecomp", "MinFlowDecompCycles", "kFlowDecomp") and rng.random() < (0.7 if cname.startswith("Min") else 0.5):
             args["optimization_options"] = "@oo2"
         elif r < 0.55:
             args["optimization_options"] = "@" + rng.choice(["oo0", "oo0", "oo1"])
@@ -178,7 +179,7 @@ def gen_world(seed, tier):
             for a_ in ("subpath_constraints", "elements_to_ignore", "error_scaling", "solution_weights_superset"):
                 args.pop(a_, None)
         ops.append({"op": "construct", "h": h, "class": cname, "args": args})
-        seq = ["solve"] + rng.sample(["get_solution", "get_solution", "get_objective_value", "get_objective_value", "solve", "is_valid_solution"], rng.randint(1, 4))
+        seq = ["solve"] + rng.sample(["get_solution", "get_solution", "get_objective_value", "get_objective_value", "solve", "solve", "is_valid_solution"], rng.randint(1, 4))
         if cname.startswith("Min") and rng.random() < 0.3:
             seq = ["get_lowerbound_k"] + seq
         long_pause_before = None
